@@ -1591,13 +1591,24 @@ impl StreamingQueueCompressor {
         // C++ AGC also decrements priority every 50 contigs WITHIN a sample (max_no_contigs_before_synchronization)
         let sample_priority = {
             let mut priorities = self.sample_priorities.write().unwrap();
-            let current_priority = *priorities.entry(sample_name.clone()).or_insert_with(|| {
-                // First time seeing this sample - assign new priority
-                let mut next_p = self.next_priority.lock().unwrap();
-                let priority = *next_p;
-                *next_p -= 1; // Decrement for next sample (C++ AGC uses --sample_priority)
-                priority
-            });
+            // C++ AGC has ONE running sample_priority that only ever decreases. A sample that is
+            // resumed after contigs of another sample (a later input file continuing an earlier
+            // sample) must therefore not get its old, higher priority back: its contigs would
+            // overtake queued contigs of the samples in between and the sync tokens behind them,
+            // so the batch contents - and with them the archive bytes - depended on thread timing.
+            let continues_last_sample =
+                self.last_sample_name.lock().unwrap().as_deref() == Some(sample_name.as_str());
+            let current_priority = match priorities.get(&sample_name) {
+                Some(&priority) if continues_last_sample => priority,
+                _ => {
+                    // First contig of this sample, or the sample is resumed - assign new priority
+                    let mut next_p = self.next_priority.lock().unwrap();
+                    let priority = *next_p;
+                    *next_p -= 1; // Decrement for next sample (C++ AGC uses --sample_priority)
+                    priorities.insert(sample_name.clone(), priority);
+                    priority
+                }
+            };
 
             // Track GLOBAL contig count and insert sync tokens every 50 contigs (pack_cardinality)
             // C++ AGC: if (++cnt_contigs_in_sample >= max_no_contigs_before_synchronization)
